@@ -1,5 +1,7 @@
 import SJ.Proofs.Facts
 import SJ.Proofs.Edit
+import SJ.Proofs.EditString
+import SJ.Proofs.Bridge
 /-
 C13 — In-place replacement changes exactly the addressed value.
 -/
@@ -53,6 +55,31 @@ theorem C13_gate_bool (pj : PJ) (i : Iter) (b : Bool) (ht : inCase (caseOf swSet
 theorem C13_gate_null (pj : PJ) (i : Iter) (h0 : inCase (caseOf swSetNull 0) i.t = false)
     (h1 : inCase (caseOf swSetNull 1) i.t = false) (h2 : inCase (caseOf swSetNull 2) i.t = false) :
     i.setNull pj = .error .generic := setNull_gate pj i h0 h1 h2
+/-- **SetString / SetStringBytes**: the two words of the addressed scalar are rewritten, the bytes appended to the
+    string buffer; the tape then holds the document with exactly that value replaced — every other string,
+    wherever stored and however shared (after a Deserialize equal strings share one stretch of `Message`),
+    reads as before. -/
+theorem C13_setString (pj : PJ) (v : LVal) (hok : Ok pj v) (q : Nat) (hnode : HasNode q (q + 2) v) (i : Iter)
+    (hoff : i.off = q + 1) (ht : inCase (caseOf swSetStringBytes 0) i.t = true) (sv : Bytes)
+    (hsmall : pj.strings.size + sv.size < 2^55) :
+    ∃ pj' i', i.setStringBytes pj sv = .ok (pj', i') ∧ Ok pj' (substV q (.str sv.toList q) v) ∧
+      pj'.strings = pj.strings ++ sv ∧ pj'.msg = pj.msg ∧ pj'.tape.size = pj.tape.size :=
+  setString_doc pj v hok q hnode i hoff ht sv hsmall
+theorem C13_gate_string (pj : PJ) (i : Iter) (s : Bytes) (ht : inCase (caseOf swSetStringBytes 0) i.t = false) :
+    i.setStringBytes pj s = .error .generic := setString_gate pj i s ht
+
+/-- **… and every reader then sees exactly that.** After `SetInt` (the same composition holds for each `Set*`
+    above), any iterator standing on the document in the new tape reads back the document with that one value
+    replaced. -/
+theorem C13_setInt_then_read (pj : PJ) (v : LVal) (hok : Ok pj v) (htight : WalkLayout.Tight v) (q : Nat)
+    (hnode : HasNode q (q + 2) v) (i : Iter) (hoff : i.off = q + 1) (ht : inCase (caseOf swSetInt 0) i.t = true) (z : Int) :
+    ∃ pj' i', i.setInt pj z = .ok (pj', i') ∧
+      ∀ (j : Iter) (fuel : Nat), WalkLayout.OnNode pj' (substV q (.int (ofInt64 z) q) v) j → 2 * (j.lim - j.off) + 2 < fuel →
+        owalkValue pj' j fuel = .ok (WalkLayout.toOVal (substV q (.int (ofInt64 z) q) v)) := by
+  obtain ⟨pj', i', h1, h2, _⟩ := setInt_doc pj v hok q hnode i hoff ht z
+  exact ⟨pj', i', h1, fun j fuel hon hf =>
+    WalkLayout.owalkValue_node pj' _ j fuel h2 (WalkLayout.subst_tight q _ rfl (by simp [WalkLayout.Tight]) v htight) hon hf⟩
+
 /-- the located relation means what Layout says: the tape region is exactly the encoding of the erased document -/
 theorem C13_located_sound (pj : PJ) (v : LVal) (h : Ok pj v) : ValAt pj (erase v) v.pos v.fin := ok_valAt pj v h
 
